@@ -9,13 +9,17 @@ import (
 	"verif/checks/c07"
 	"verif/checks/c08"
 	"verif/checks/c09"
+	"verif/checks/c10"
 	"verif/checks/c11"
 	"verif/checks/c12"
+	"verif/checks/c15"
 	"verif/checks/c16"
 	"verif/checks/c17"
 )
 
 func init() {
+	register("C15", "model_checking", c15.Run)
+	register("C10", "exploration", c10.Run)
 	register("C16", "exploration", c16.Run)
 	register("C09", "exploration", c09.Run)
 	register("C04", "exploration", c04.Run)
